@@ -1,5 +1,5 @@
 """C13 - matrix containers (thin): split/recombine offsets, Trans composition order, no floats. Entry values NOT decided."""
-import e8b_matrix, e2_float
+import e8b_matrix, e2_float, e27_trans
 
 LEVEL = 'other'
 EXPLANATION = ('Only three structural clauses of C13 are decided: (F8) SpMat::divide4 subtracts exactly the row/column offsets that '
@@ -26,3 +26,5 @@ def run(ctx, rep):
     e8b_matrix.check_split_combine(facts, rep)
     e8b_matrix.check_trans_order(facts, rep)
     e2_float.apply(facts, rep, scope, 'C13', floor_scope=150)
+    rep.rule('E27', e27_trans.__doc__.strip().split('\n')[0])
+    e27_trans.run(facts, rep)
